@@ -4,6 +4,12 @@ Every point of a finite lattice (tensor shape x dtype, inner loops over axes, co
 windows, padding modes, num_deltas, target_axis, concatenate / num_vectors, time_axis,
 pad_mode, in_place) is run through the real `apply` and through mc/refs/post.py (Kaldi
 delta recursion and stacking written with explicit loops and explicit edge extension).
+
+Sub-check `histories`: ONE object per configuration is used for every sequence of apply()
+calls (shape x axis x dtype x in_place) up to a depth bound - explicit-state search with
+merging on the object's canonical form plus an un-merged enumeration on new objects - and
+every result is compared with a fresh object's and with the reference (a result may not
+depend on what the object was used for before).
 """
 import itertools
 
@@ -21,6 +27,12 @@ ASSUMPTIONS = [
     "not enumerated",
     "float64 intermediate then cast to the input dtype: integer results may differ by one unit "
     "where the exact value is an integer (summation order), float32 by 2 ulp",
+    "histories: alphabet of 72 (Deltas) / 48-72 (Stack) calls over shapes (4,), (3,4), (2,3,2) / (5,2), (2,3), "
+    "(3,2,4) x every valid axis x {float64, float32, int16} x in_place; merged search to depth 3 (quick) / 4 "
+    "(thorough): the canonical form (instance attributes, class attributes, module-level data of "
+    "pydrobert.speech.post) is assumed to hold all state; the un-merged enumeration of all sequences of 2 "
+    "(quick) / 3 (thorough) calls does not depend on that assumption; a result that is bit-identical to a fresh "
+    "object's is accepted, otherwise the tolerance against the reference decides",
 ]
 
 DTYPES = ("float64", "float32", "int32", "int16")
@@ -89,6 +101,12 @@ def _close(got, f64, dtype):
 
 def _deltas_one(x, pristine, dtype, axis, window, mode, nd, concat, ta, in_place, orders, tags0):
     """one real Deltas.apply call against the reference orders (float64 arrays)"""
+    v, o, _ = _deltas_one3(x, pristine, dtype, axis, window, mode, nd, concat, ta, in_place, orders, tags0)
+    return v, o
+
+
+def _deltas_one3(x, pristine, dtype, axis, window, mode, nd, concat, ta, in_place, orders, tags0):
+    """as _deltas_one, returns (violations, observation, result array or None)"""
     from pydrobert.speech import post
 
     name, padkw, _ = _mode(mode)
@@ -101,18 +119,18 @@ def _deltas_one(x, pristine, dtype, axis, window, mode, nd, concat, ta, in_place
                                            context_window=window, pad_mode=name, **padkw))
     if r[0] != "ok":
         return [core.violation(dict(tags, what="init_exception", exc=r[1]),
-                               "Deltas(...) raised %s: %s" % (r[1], r[2]), case)], None
+                               "Deltas(...) raised %s: %s" % (r[1], r[2]), case)], None, None
     arg = x if not in_place else np.array(x, copy=True)
     r = computers.call(r[1].apply, arg, axis, in_place)
     if r[0] != "ok":
         return [core.violation(dict(tags, what="exception", exc=r[1]),
-                               "apply raised %s: %s" % (r[1], r[2]), case)], None
+                               "apply raised %s: %s" % (r[1], r[2]), case)], None, None
     got = r[1]
     f64 = ref.deltas_layout(orders[:nd + 1], ta, concat)
     if not isinstance(got, np.ndarray) or got.shape != f64.shape:
         return [core.violation(dict(tags, what="shape"),
                                "result shape %r, documented %r" % (getattr(got, "shape", None), f64.shape),
-                               case)], None
+                               case)], None, None
     if got.dtype != x.dtype:
         viol.append(core.violation(dict(tags, what="dtype"),
                                    "result dtype %s, input dtype %s" % (got.dtype, x.dtype), case))
@@ -134,7 +152,7 @@ def _deltas_one(x, pristine, dtype, axis, window, mode, nd, concat, ta, in_place
     if not in_place and not np.array_equal(x, pristine):
         viol.append(core.violation(dict(tags, what="input_modified"),
                                    "apply(in_place=False) changed its input", case))
-    return viol, (bool(concat), nd, bool(got.size), bool(in_place))
+    return viol, (bool(concat), nd, bool(got.size), bool(in_place)), got
 
 
 def _target_axes(ndim, concat):
@@ -311,9 +329,261 @@ def _replay_stack(case, seed):
     return core.result(v)
 
 
+# ------------------------------------------------------------------ call histories on ONE object
+#
+# The lattices above build a fresh object for every call.  Here ONE Deltas / Stack object is
+# used for a sequence of apply() calls drawn from an alphabet (shape x axis x dtype x
+# in_place); every result is compared with what a FRESH, identically configured object
+# returns for the same call (differential oracle; the fresh result itself is checked against
+# mc/refs/post.py) and, when it is not bit-identical to that, with the reference model.
+#   (a) breadth-first search with explorer.bfs: a state is the canonical form of the real
+#       object (+ class attributes + module-level data of pydrobert.speech.post); states
+#       are merged, so on a stateless implementation the search closes after one level and
+#       with a stateful one every reachable state up to the depth bound is expanded;
+#   (b) plain enumeration WITHOUT merging and without deep copies (a new object per
+#       sequence) of every sequence of PLAIN_DEPTH calls - does not rely on the canonical
+#       form capturing all hidden state.
+
+H_DTYPES = ("float64", "float32", "int16")
+H_DELTAS_SHAPES = ((4,), (3, 4), (2, 3, 2))
+H_STACK_SHAPES = ((5, 2), (2, 3), (3, 2, 4))
+
+
+def _post_state():
+    from pydrobert.speech import post
+
+    out = []
+    for name, v in sorted(vars(post).items()):
+        if name.startswith("__") or callable(v) or isinstance(v, type(np)):
+            continue
+        if isinstance(v, (np.ndarray, list, dict, set, int, float, bool)):
+            out.append((name, computers.canon_value(v, 1)))
+    return tuple(out)
+
+
+def _same_bits(a, b):
+    return a.shape == b.shape and a.dtype == b.dtype and a.tobytes() == b.tobytes()
+
+
+class _HSt:
+    __slots__ = ("obj", "hist")
+
+    def __init__(self, obj, hist):
+        self.obj, self.hist = obj, hist
+
+
+class _History:
+    """alphabet, expected results and the per-call oracle for one configuration"""
+
+    def __init__(self, cfg, seed):
+        self.cfg, self.seed = cfg, seed
+        self.proc = cfg["proc"]
+        self.letters = []      # JSON-able: [shape, axis, dtype, in_place]
+        self.exp = {}          # key -> dict(x, bytes, want, f64, viol)
+        shapes = H_DELTAS_SHAPES if self.proc == "Deltas" else H_STACK_SHAPES
+        for shape in shapes:
+            nd = len(shape)
+            for axis in range(-nd, nd):
+                if self.proc == "Stack" and axis % nd == cfg["time_axis"] % nd:
+                    continue  # feature axis == time axis: outside the property
+                for dtype in H_DTYPES:
+                    for ip in (False, True):
+                        self.letters.append([list(shape), axis, dtype, ip])
+        self.fresh_viol = []
+        for L in self.letters:
+            self.exp[self.key(L)] = self._expected(L)
+
+    @staticmethod
+    def key(L):
+        return (tuple(L[0]), L[1], L[2], bool(L[3]))
+
+    def make(self):
+        from pydrobert.speech import post
+
+        c = self.cfg
+        if self.proc == "Deltas":
+            name, padkw, _ = _mode(c["mode"])
+            return post.Deltas(c["num_deltas"], target_axis=c["target_axis"], concatenate=c["concatenate"],
+                               context_window=c["window"], pad_mode=name, **padkw)
+        if c["pad"] is None:
+            return post.Stack(c["num_vectors"], time_axis=c["time_axis"])
+        name, padkw, _ = _mode(c["pad"])
+        return post.Stack(c["num_vectors"], time_axis=c["time_axis"], pad_mode=name, **padkw)
+
+    def _expected(self, L):
+        """result of a FRESH object for letter L, itself checked against the reference"""
+        shape, axis, dtype, ip = tuple(L[0]), L[1], L[2], bool(L[3])
+        c = self.cfg
+        x = sig.ro(_data(self.seed, shape, dtype))
+        pristine = np.array(x, copy=True)
+        f64 = None
+        if self.proc == "Deltas":
+            name, _, refkw = _mode(c["mode"])
+            orders = ref.delta_orders(x, c["num_deltas"], c["window"], axis, name, **refkw)
+            v, _, got = _deltas_one3(x, pristine, dtype, axis, c["window"], c["mode"], c["num_deltas"],
+                                     c["concatenate"], c["target_axis"], ip, orders,
+                                     dict(proc="Deltas", dtype_kind=_kindof(dtype)))
+            f64 = ref.deltas_layout(orders, c["target_axis"], c["concatenate"])
+        else:
+            v, _, got = _stack_one(x, pristine, dtype, c["num_vectors"], c["time_axis"], axis, c["pad"], ip,
+                                   dict(proc="Stack", dtype_kind=_kindof(dtype)))
+        self.fresh_viol.extend(v)
+        if v:
+            got = None  # the fresh object is already wrong here: nothing to compare histories with
+        return dict(x=x, bits=x.tobytes(), want=got, f64=f64)
+
+    def tags(self, L, hist, what, **kw):
+        nd, ax = len(L[0]), L[1] % len(L[0])
+        t = dict(proc=self.proc, history=True, what=what, dtype_kind=_kindof(L[2]),
+                 earlier_same_ndim=any(len(h[0]) == nd for h in hist),
+                 earlier_same_axis=any(len(h[0]) == nd and h[1] % nd == ax for h in hist))
+        t.update(kw)
+        return t
+
+    def call(self, obj, L, hist):
+        """one apply() of letter L on the (used) object; hist = the letters applied before"""
+        e = self.exp[self.key(L)]
+        if e["want"] is None:
+            return [], None
+        shape, axis, dtype, ip = tuple(L[0]), L[1], L[2], bool(L[3])
+        x, want = e["x"], e["want"]
+        arg = np.array(x, copy=True)  # writable: a write to the caller's array shows as input_modified
+        r = computers.call(obj.apply, arg, axis, ip)
+        case = dict(proc=self.proc, history=True, config=self.cfg)
+        where = "call %d on one %s object (earlier calls %s): apply(%s %s, axis=%d, in_place=%s)" % (
+            len(hist) + 1, self.proc, [list(h) for h in hist], dtype, list(shape), axis, ip)
+        if r[0] != "ok":
+            return [core.violation(self.tags(L, hist, "history_exception", exc=r[1]),
+                                   "%s raised %s: %s; a fresh object returns normally" % (where, r[1], r[2]),
+                                   case)], ("exc",)
+        got = r[1]
+        viol = []
+        if not ip and arg.tobytes() != e["bits"]:
+            viol.append(core.violation(self.tags(L, hist, "history_input_modified"),
+                                       "%s changed its input" % where, case))
+        if not isinstance(got, np.ndarray) or got.shape != want.shape:
+            viol.append(core.violation(self.tags(L, hist, "history_shape"),
+                                       "%s has shape %r, a fresh object gives %r" % (
+                                           where, getattr(got, "shape", None), want.shape), case))
+            return viol, ("shape",)
+        if got.dtype != want.dtype:
+            viol.append(core.violation(self.tags(L, hist, "history_dtype"),
+                                       "%s has dtype %s, a fresh object gives %s" % (where, got.dtype, want.dtype),
+                                       case))
+            return viol, ("dtype",)
+        same = got.tobytes() == want.tobytes()
+        if not same:
+            # not bit-identical to the fresh object's result: the reference model decides
+            if self.proc == "Deltas":
+                ok = _close(got, e["f64"], dtype) if got.size else np.ones(0, bool)
+            else:
+                ok = got == want
+            if not np.all(ok):
+                bad = np.argwhere(~ok)[0]
+                viol.append(core.violation(
+                    self.tags(L, hist, "history_values"),
+                    "%s: result%s = %r, a fresh object gives %r; %d of %d entries differ from the reference" % (
+                        where, bad.tolist(), got[tuple(bad)].item(), want[tuple(bad)].item(),
+                        int((~ok).sum()), ok.size), case))
+        return viol, (len(shape), _kindof(dtype), ip, same, bool(got.size))
+
+
+def _eval_history(cfg, seed, tier, replay_ops=None):
+    import copy
+
+    from .. import explorer
+
+    H = _History(cfg, seed)
+    if replay_ops is not None:
+        obj, viol, hist = H.make(), [], ()
+        for L in replay_ops:
+            v, _ = H.call(obj, L, hist)
+            viol.extend(v)
+            hist = hist + (H.key(L),)
+        for v in viol:
+            v["case"] = dict(proc=H.proc, history=True, config=cfg, ops=replay_ops)
+        return core.result(viol)
+    depth = 3 if tier == "quick" else 4
+    plain = 2 if tier == "quick" else 3
+    viol = list(H.fresh_viol)
+
+    # (a) explicit-state search with merging
+    def ops(s):
+        return H.letters if len(s.hist) < depth else ()
+
+    def step(s, L):
+        obj = copy.deepcopy(s.obj)
+        v, o = H.call(obj, L, s.hist)
+        return _HSt(obj, s.hist + (H.key(L),)), v, o
+
+    def key(s):
+        return (computers.canon_value(s.obj), computers.class_state(type(s.obj)), _post_state())
+
+    st = explorer.bfs(lambda: _HSt(H.make(), ()), ops, step, key, max_states=3000, max_viol=60)
+    viol.extend(st.violations)
+    # (b) every sequence of `plain` calls, a new object per sequence, nothing merged or copied
+    seqs = calls = 0
+    obs = set(st.observations)
+    if len(viol) < 60:
+        for seq in itertools.product(H.letters, repeat=plain):
+            obj, hist = H.make(), ()
+            seqs += 1
+            for i, L in enumerate(seq):
+                calls += 1
+                if i < plain - 1:
+                    # prefixes are sequences of their own at the previous level / in (a)
+                    e = H.exp[H.key(L)]
+                    computers.call(obj.apply, np.array(e["x"], copy=True), L[1], L[3])
+                else:
+                    v, o = H.call(obj, L, hist)
+                    if o is not None:
+                        obs.add(o)
+                    for w in v:
+                        w["case"] = dict(w["case"], ops=[list(l) for l in seq])
+                    viol.extend(v)
+                hist = hist + (H.key(L),)
+            if len(viol) >= 60:
+                break
+    seen, uniq = set(), []
+    for v in viol:
+        h = core.sig_hash(v["tags"])
+        if h not in seen:
+            seen.add(h)
+            uniq.append(v)
+    return core.result(
+        uniq, evals=st.transitions + seqs, nontrivial_count=max(0, st.transitions - len(H.letters)) + seqs,
+        obs=sorted(map(str, obs)), obs_is_set=True, states=st.states, transitions=st.transitions,
+        impl_calls=st.transitions + calls + len(H.letters),
+        capped=st.capped if (st.capped and not uniq) else None,
+        sample=dict(config=cfg, letters=len(H.letters), bfs_states=st.states, bfs_transitions=st.transitions,
+                    bfs_depth_bound=depth, bfs_closed=st.closed, plain_sequences=seqs, plain_length=plain))
+
+
+def _history_configs():
+    out = []
+    for nd in (1, 2):
+        for concat in (True, False):
+            for ta in (0, -1):
+                for window in (1, 2):
+                    for mode in ("edge", "reflect"):
+                        out.append(dict(proc="Deltas", num_deltas=nd, concatenate=concat, target_axis=ta,
+                                        window=window, mode=mode))
+    for nv in (1, 2, 3):
+        for time_axis in (0, 1, -1, -2):
+            for pad in (None, "edge", "constant:7"):
+                out.append(dict(proc="Stack", num_vectors=nv, time_axis=time_axis, pad=pad))
+    return out
+
+
+def _cost(pt):
+    return -len(pt[0]) * int(np.prod([max(1, n) for n in pt[0]]))
+
+
 def subchecks(tier, seed):
-    dpts = [(s, d) for s in _shapes(tier) for d in DTYPES]
-    spts = [(s, d) for s in _shapes(tier, 2) for d in DTYPES]
+    # most expensive points first (better balance over the workers); the set is unchanged
+    dpts = sorted([(s, d) for s in _shapes(tier) for d in DTYPES], key=_cost)
+    spts = sorted([(s, d) for s in _shapes(tier, 2) for d in DTYPES], key=_cost)
+    hpts = _history_configs()
     modes = MODES_QUICK if tier == "quick" else MODES_FULL
     return [
         core.SubCheck(
@@ -328,7 +598,7 @@ def subchecks(tier, seed):
                       target_axis="every valid value, negative too",
                       pruning="empty filtered axis: num_deltas=0 only; empty tensors and (quick) "
                               "negative axis aliases: two (window, mode) pairs"),
-            replay=lambda case: _replay_deltas(case, seed), chunk=4),
+            replay=lambda case: _replay_deltas(case, seed), chunk=1),
         core.SubCheck(
             "stack", spts, lambda p: _eval_stack(p, seed, tier),
             "real Stack.apply vs explicit-loop stacking at every (shape, dtype); inner loop "
@@ -340,4 +610,22 @@ def subchecks(tier, seed):
                       num_vectors=[1, 2, 3, 4], time_axis="-ndim..ndim-1", axis="-ndim..ndim-1 (!= time)",
                       pad_mode=[str(p) for p in STACK_PADS], in_place=[False, True]),
             replay=lambda case: _replay_stack(case, seed), chunk=4),
+        core.SubCheck(
+            "histories", hpts, lambda c: _eval_history(c, seed, tier),
+            "ONE Deltas / Stack object per configuration used for sequences of apply() calls over an "
+            "alphabet shape x axis x dtype x in_place: (a) BFS with state merging on the object's "
+            "canonical form to depth %d, (b) every sequence of %d calls on a new object without merging; "
+            "every result compared with a fresh object's (bit-identical, else with the reference model); "
+            "non-trivial = a call that is not the first on its object" % (
+                (3, 2) if tier == "quick" else (4, 3)),
+            axes=dict(deltas_config=dict(num_deltas=[1, 2], concatenate=[True, False], target_axis=[0, -1],
+                                         context_window=[1, 2], pad_mode=["edge", "reflect"]),
+                      stack_config=dict(num_vectors=[1, 2, 3], time_axis=[0, 1, -1, -2],
+                                        pad_mode=["None", "edge", "constant:7"]),
+                      alphabet=dict(deltas_shapes=[list(x) for x in H_DELTAS_SHAPES],
+                                    stack_shapes=[list(x) for x in H_STACK_SHAPES],
+                                    axis="-ndim..ndim-1 (Stack: != time axis)", dtype=list(H_DTYPES),
+                                    in_place=[False, True])),
+            replay=lambda case: _eval_history(case["config"], seed, tier, replay_ops=case["ops"]),
+            chunk=1, kind="explore"),
     ]
